@@ -198,6 +198,12 @@ func generate(w *mon.W) {
 			}
 		}
 	}
+	// the `project name` shorthand: the name is an expression like any other
+	// (a built-in constant, a column, a quoted column)
+	for _, x := range []*E{Name("null"), Name("true"), Name("false"), Name("ia"), Name("sa"), Name("Null"), Name("True"), QName("i c"), QName("null"), QName("true")} {
+		c := &Case{X: x, Pos: "project-name", Seed: 8}
+		w.Do("pn|"+Canon(x), func(r *mon.R) { Check(c, r) })
+	}
 	rng := gen.RNG(w.Seed, "c01")
 	n := w.Pick(6_000, 300_000)
 	for i := 0; i < n && !w.Stopped(); i++ {
